@@ -78,8 +78,10 @@ def main(tier, seed):
         rep.coverage["states"] = rep.coverage.get("states", 0) + n_
         ncases += [c for c in cs if c["r"]["c"] != "trigger"]
     if tier == "quick":
-        rng.shuffle(ncases)
-        ncases = ncases[:15000]
+        small = [c for c in ncases if c["f"] not in ("binop", "index")]          # iteration, ranges, fiber operations: all of them
+        big = [c for c in ncases if c["f"] in ("binop", "index")]
+        rng.shuffle(big)
+        ncases = small + big[:12000]
     save = c02.PROP
     c02.PROP = PROP
     try:
